@@ -1126,3 +1126,94 @@ fn lift_op<F: AdFrame>(op: Op, obs: &mut Observer) -> Result<(), Violation> {
     check_eq!(obs, got, want, "lift.frames", "lift contents (variant {})", variant);
     Ok(())
 }
+
+// ---------------------------------------------------------------------------------------------
+// seeded composition for the allocation scenario (C07): a tree that owns its leaves
+// ---------------------------------------------------------------------------------------------
+
+pub struct Composition<F: AdFrame> {
+    tree: Option<Dyn<'static, F>>,
+    leaves: *mut Leaves<F>,
+}
+
+impl<F: AdFrame> Composition<F> {
+    pub fn build(seed: u64) -> Self {
+        let mut r = Rng::new(seed);
+        let shift = 4u32;
+        let mut lv = Leaves::<F> {
+            main: Vec::new(),
+            main_pulls: Vec::new(),
+            main_m: Vec::new(),
+            sgn: Vec::new(),
+            sgn_pulls: Vec::new(),
+            sgn_m: Vec::new(),
+            flt: Vec::new(),
+            flt_pulls: Vec::new(),
+            flt_m: Vec::new(),
+        };
+        for i in 0..3u32 {
+            let id = i + 16 * shift;
+            let n = r.range(0, 60) as u64;
+            let sig = match r.below(3) {
+                0 => LeafSig::Probe(ProbeSignal::with(id, Some(n), F::leaf as fn(u32, u64) -> F).0),
+                1 => {
+                    let (it, _, _) = ProbeIter::new(id, n, false, F::leaf as fn(u32, u64) -> F);
+                    LeafSig::Iter(Counted::new(signal::from_iter(it)).0)
+                }
+                _ => {
+                    let (it, _, _) = ProbeIter::new(id, n * F::CHANNELS as u64 + 1, false, inter_sample::<F> as fn(u32, u64) -> F::Sample);
+                    LeafSig::Inter(Counted::new(signal::from_interleaved_samples_iter::<_, F>(it)).0)
+                }
+            };
+            lv.main.push(sig);
+        }
+        for j in 0..2u32 {
+            lv.sgn.push(ProbeSignal::with(8 + j + 16 * shift, Some(r.range(0, 80) as u64), F::sleaf as fn(u32, u64) -> F::SF).0);
+            lv.flt.push(ProbeSignal::with(12 + j, None, F::fleaf as fn(u32, u64) -> F::FF).0);
+        }
+        let mut b = Builder::new(3, 2, 2, 1.0 / (1u64 << shift) as f64);
+        let mut g = Gen {
+            flavor: Flavor::Adaptors,
+            steps: 0,
+            done: 0,
+            build_left: 0,
+            allow_rewrap: false,
+            nm: 3,
+            ns: 2,
+            nf: 2,
+        };
+        for _ in 0..r.range(2, 12) {
+            let op = gen_build(&mut r, &mut g);
+            b.apply(op);
+        }
+        let (node, n_closures) = b.finish();
+        let closures: Vec<Closure<F>> = (0..n_closures).map(|_| Closure::new()).collect();
+        let leaves: *mut Leaves<F> = Box::into_raw(Box::new(lv));
+        // SAFETY: the leaves live in a heap box that is freed only after the tree (which holds the
+        // references) has been dropped, see Drop below; the box is never touched while the tree lives.
+        let lref: &'static mut Leaves<F> = unsafe { &mut *leaves };
+        let mut av = Avail::<'static, F> {
+            main: lref.main.iter_mut().map(Some).collect(),
+            sgn: lref.sgn.iter_mut().map(Some).collect(),
+            flt: lref.flt.iter_mut().map(Some).collect(),
+        };
+        let tree = realize(&node, &mut av, &closures);
+        Composition {
+            tree: Some(tree),
+            leaves,
+        }
+    }
+
+    #[inline]
+    pub fn pull(&mut self) -> (bool, F) {
+        let t = self.tree.as_mut().unwrap();
+        (t.is_exhausted(), t.next())
+    }
+}
+
+impl<F: AdFrame> Drop for Composition<F> {
+    fn drop(&mut self) {
+        self.tree = None;
+        unsafe { drop(Box::from_raw(self.leaves)) };
+    }
+}
